@@ -83,6 +83,11 @@ func smartDateParseWrapper(format string, tz *time.Location, dateStage KeyBuilde
 				if err != nil {
 					return ErrorParsing
 				}
+				if strings.HasSuffix(liveFormat, "Z") {
+					// The detected layout spells the sample's UTC designator as a literal "Z",
+					// which would be read as local time in tz; make it the zone field
+					liveFormat += "07:00"
+				}
 				atomicFormat.Store(liveFormat)
 			}
 
